@@ -449,6 +449,8 @@ class Session:
                     h[-1][0] = raw  # same content, latest bytes
         if "op" in step:
             return self._do_op(step)
+        if "rejected" in step:
+            return self._do_rejected(step)
         if "retain" in step:
             ok = self.model.retain(step["retain"], step["h"], step.get("path", []))
             if ok:
@@ -529,6 +531,14 @@ class Session:
             self.counters["skipped_mutators_on_untracked_handles"] = \
                 self.counters.get("skipped_mutators_on_untracked_handles", 0) + 1
             return
+        if "k" in step and checked:
+            # the operation was generated for a dict / a list: when the run-time content differs from what the
+            # generator assumed (popitem, faults, rejected operations) and the position now holds the other kind,
+            # the call is not the operation that was meant
+            t_now = m._safe_resolve(H.res, H.path + list(step.get("path", [])))
+            if isinstance(t_now, (dict, list)) and _kind(t_now) != step["k"]:
+                self.counters["skipped_ops_on_other_kind"] = self.counters.get("skipped_ops_on_other_kind", 0) + 1
+                return
         self.counters["ops"] += 1
         self.counters["mut" if mut else "reads"] += 1
         buffered_before = m.res_buffered(H.res)
@@ -642,6 +652,64 @@ class Session:
         if self.oracle["resource_each_step"]:
             for r in range(len(self.resources)):
                 self._check_res_now(r, f"after {op}", op)
+
+    def _do_rejected(self, step):
+        """A multi-item mutator carrying one item the collection must reject.
+
+        How much of it is applied before the rejection is not the model's business (C11 judges the
+        rejection itself). What is asserted is that the outcome is *stable*: the content a read through
+        the API shows right afterwards becomes the model content - later reads must agree with it, an
+        unbuffered resource must hold it at once, a buffered one after the outermost exit."""
+        m = self.model
+        h = step["h"]
+        H = m.handles.get(h)
+        if H is None or h not in self.objs or not H.attached or H.root not in self.objs:
+            return
+        op = step["rejected"]
+        try:
+            node = self._navigate(h, step.get("path", []))
+        except Exception:  # noqa: BLE001
+            return
+        target = m._safe_resolve(H.res, H.path + list(step.get("path", [])))
+        if not isinstance(target, (dict, list)):
+            return
+        args = [model.decode(a, self_obj=node, aux=self._aux_sut) for a in step.get("args", [])]
+        buffered_before = m.res_buffered(H.res)
+        armed = self._arm()
+        sut = model.run_sut(node, op, args)
+        events = fsmon.disarm() if armed else []
+        self.counters["rejected_ops"] = self.counters.get("rejected_ops", 0) + 1
+        if sut.kind != "exc":
+            raise StopCase()  # accepted after all: C11's business, the model cannot follow
+        if armed and buffered_before and m.res_buffered(H.res) and not self.case.get("small_capacity"):
+            w = fsmon.writes_to(events, self.resources[H.res].path)
+            if w:
+                self.viol("early_write", f"rejected {op} wrote the file while buffered: {w[:3]}", op=op)
+        # children below the target may have been replaced by the part that was applied
+        m._detach_same_parent(H.root, H.path + list(step.get("path", [])), None, True)
+        seen = model.run_sut(self.objs[H.root], "call", [])
+        if seen.kind != "ret":
+            self.viol("result", f"read after a rejected {op} raised {seen.brief()}", op=op)
+            return
+        obs = model.to_plain(seen.value)
+        if model.compare(obs, m.logical[H.res]) == "ok":
+            self.counters["rejected_reverted"] = self.counters.get("rejected_reverted", 0) + 1
+            if m.is_buffered_root(H.root) and m.dirty[H.res] == "clean":
+                m.dirty[H.res] = "maybe"
+            elif not m.is_buffered_root(H.root) and m.truth[H.res] == MISSING:
+                m.may_create[H.res] = True
+        else:
+            self.counters["rejected_partly_applied"] = self.counters.get("rejected_partly_applied", 0) + 1
+            m.logical[H.res] = copy.deepcopy(obs)
+            m._recheck_kinds(H.res)
+            if m.is_buffered_root(H.root):
+                m.dirty[H.res] = "dirty"
+            else:
+                m.truth[H.res] = copy.deepcopy(obs)
+                m.may_create[H.res] = False
+        if self.oracle["resource_each_step"]:
+            for r in range(len(self.resources)):
+                self._check_res_now(r, f"after rejected {op}", op)
 
     def _check_res_now(self, r, where, op=None):
         m = self.model
